@@ -556,8 +556,7 @@ Definition is_spread (m : cmode) : bool := match m with MSpread => true | _ => f
 Definition bind_side (d : dir) (cx : cctx) (ins : list ty) (va : bool) (m : cmode) (args : list val) : bool :=
   let n := nfixed ins va in
   match d with
-  | S2H => negb (cx_defer cx && cx_hold cx) && negb (cx_defer cx && is_spread m)
-           && (negb (is_ind m) || Nat.ltb n (length args))
+  | S2H => negb (cx_defer cx && is_spread m) && (negb (is_ind m) || Nat.ltb n (length args))
   | H2S => negb (is_ind m) || Nat.ltb n (length args)
   | S2S => if cx_value cx then negb (is_ind m) || Nat.ltb n (length args)
            else forallb no_negzero (firstn n args) && (negb (is_ind m) || forallb not_any_slice (skipn n args))
@@ -586,11 +585,11 @@ Lemma bind_s2h cx ins va m args :
   bind_side S2H cx ins va m args = true -> call_wf ins va m args ->
   vals_eqb (y_bind S2H cx ins va m args) (g_bind ins va m args) = true.
 Proof.
-  unfold bind_side, call_wf. rewrite !andb_true_iff, !negb_true_iff. intros [[Hdh Hds] Hn] [Hwt Hind].
+  unfold bind_side, call_wf. rewrite !andb_true_iff, !negb_true_iff. intros [Hds Hn] [Hwt Hind].
   assert (Hok : Forall2 okv (arg_types ins va m (length args)) args)
     by (eapply Forall2_impl'; [|eassumption]; intros a b [H _]; exact H).
   destruct (prepared_ok _ _ Hok) as (P1 & P2 & P3).
-  unfold y_bind. rewrite Hdh.
+  unfold y_bind.
   set (prepared := map2 (fun t v => to_host (vsize v) t v) (arg_types ins va m (length args)) args) in *.
   destruct m; unfold g_bind.
   - rewrite P1. assumption.
@@ -769,10 +768,9 @@ Proof. intros H; simpl; congruence. Qed.
 (* ------------------------------------------------------------------ *)
 (** * Witnesses: the side conditions are inhabited, and outside them the faithful model differs *)
 
-Definition cx0 : cctx := {| cx_defer := false; cx_hold := false; cx_value := false |}.
-Definition cx_deferred : cctx := {| cx_defer := true; cx_hold := false; cx_value := false |}.
-Definition cx_deferred_hold : cctx := {| cx_defer := true; cx_hold := true; cx_value := false |}.
-Definition cx_funcvalue : cctx := {| cx_defer := false; cx_hold := false; cx_value := true |}.
+Definition cx0 : cctx := {| cx_defer := false; cx_value := false |}.
+Definition cx_deferred : cctx := {| cx_defer := true; cx_value := false |}.
+Definition cx_funcvalue : cctx := {| cx_defer := false; cx_value := true |}.
 
 Definition tP : ty := TStruct (s "P") [TInt 64; TString].
 Definition vP (x : Z) (y : string) : val := VStruct [VInt x; VStr (s y)].
@@ -831,11 +829,13 @@ Lemma defer_spread_refuted :
   /\ g_bind ins_v true MSpread [VStr (s "a"); VSlice [VInt 1]] = [VStr (s "a"); VSlice [VInt 1]].
 Proof. repeat split; reflexivity. Qed.
 
-(** defer host.F(cb), cb a local func variable the host calls back *)
-Lemma defer_callback_refuted :
-  y_bind S2H cx_deferred_hold [t_cb] false MPlain [v_cb] = [VBad (s "timeout")]
-  /\ g_bind [t_cb] false MPlain [v_cb] = [v_cb].
-Proof. split; reflexivity. Qed.
+(** defer host.F(cb), cb a local func variable the host calls back: repaired by abe7a69 (the call
+    used to hang on the frame mutex); now the host gets the callback like in any other call. *)
+Lemma defer_callback_regression :
+  bind_side S2H cx_deferred [t_cb] false MPlain [v_cb] = true
+  /\ vals_eqb (y_bind S2H cx_deferred [t_cb] false MPlain [v_cb]) (g_bind [t_cb] false MPlain [v_cb]) = true
+  /\ call (hd VNil (y_bind S2H cx_deferred [t_cb] false MPlain [v_cb])) [VInt 2] = [VStr (s "two")].
+Proof. repeat split; reflexivity. Qed.
 
 (** F(-0.0) inside the script: the parameter is +0 *)
 Definition neg0 : val := VFloat 9223372036854775808.
@@ -901,3 +901,120 @@ Lemma shared_all t v :
   okv t v ->
   (forall d, val_eqb (y_shared d t v) v = true) /\ val_eqb (y_round_s t v) v = true /\ val_eqb (y_round_h t v) v = true.
 Proof. intros H; split; [intros d; apply shared_agree|split; [apply round_s_agree|apply round_h_agree]]; assumption. Qed.
+
+(* ------------------------------------------------------------------ *)
+(** * Embedded host interfaces *)
+
+Definition layout_first (f : efacts) : bool := match ef_layout f with LFirst => true | _ => false end.
+
+(** The decidable side condition: no override is skipped by handing the value over unwrapped, and
+    every promoted method can be found and called. *)
+Definition embed_side (f : efacts) (over methods : list str) : bool :=
+  if ef_ptr f && ef_implements f then ef_real f && forallb (fun m => negb (mem m over)) methods
+  else forallb (fun m => mem m over || ef_ptr f || (if ef_nummeth f then ef_real f else negb (layout_first f))) methods.
+
+Definition calm (w : who) : bool := match w with WFailBuild | WFailCall => false | _ => true end.
+
+Lemma run_calls_calm l : forallb calm l = true -> run_calls l false = (l, false).
+Proof.
+  induction l as [|w l IH]; simpl; [reflexivity|]. rewrite andb_true_iff. intros [Hw Hl].
+  rewrite (IH Hl). destruct w; try discriminate; reflexivity.
+Qed.
+
+Lemma calm_no_failbuild l : forallb calm l = true -> existsb is_failbuild l = false.
+Proof.
+  induction l as [|w l IH]; simpl; [reflexivity|]. rewrite andb_true_iff. intros [Hw Hl].
+  rewrite (IH Hl). destruct w; try discriminate; reflexivity.
+Qed.
+
+Lemma y_one_agree f over del methods :
+  embed_side f over methods = true ->
+  map (y_one f over del) methods = map (g_one over del) methods.
+Proof.
+  unfold embed_side, y_one, g_one. destruct (ef_ptr f && ef_implements f) eqn:E.
+  - rewrite andb_true_iff. intros [Hr H]. rewrite Hr.
+    induction methods as [|m ms IH]; simpl in *; [reflexivity|].
+    rewrite andb_true_iff, negb_true_iff in H. destruct H as [Hm Hms]. rewrite Hm. f_equal; auto.
+  - intros H. induction methods as [|m ms IH]; simpl in *; [reflexivity|].
+    rewrite andb_true_iff in H. destruct H as [Hm Hms]. f_equal; [|auto].
+    destruct (mem m over); [reflexivity|]. simpl in Hm.
+    destruct (ef_ptr f); [reflexivity|]. simpl in Hm.
+    destruct (ef_nummeth f); [rewrite Hm; reflexivity|].
+    unfold layout_first in Hm. destruct (ef_layout f); try reflexivity; discriminate.
+Qed.
+
+Lemma g_one_calm over del methods : forallb calm (map (g_one over del) methods) = true.
+Proof.
+  induction methods as [|m ms IH]; simpl; [reflexivity|]. rewrite IH, andb_true_r.
+  unfold g_one. destruct (mem m over); [destruct del|]; reflexivity.
+Qed.
+
+Lemma embedded_agree f over del methods :
+  embed_side f over methods = true -> y_dispatch f over del methods = g_dispatch over del methods.
+Proof.
+  intros H. unfold y_dispatch, g_dispatch. rewrite (y_one_agree _ _ del _ H).
+  rewrite calm_no_failbuild, run_calls_calm by apply g_one_calm. reflexivity.
+Qed.
+
+Definition f_val_only_iface : efacts :=   (* T{io-like interface}, by value: StructOf's stubs *)
+  {| ef_ptr := false; ef_layout := LOnly; ef_implements := true; ef_nummeth := true; ef_real := false |}.
+Definition f_ptr_only_compiled : efacts := (* &T{io.Writer}: *struct{io.Writer} exists in the binary *)
+  {| ef_ptr := true; ef_layout := LOnly; ef_implements := true; ef_nummeth := true; ef_real := true |}.
+Definition f_val_first : efacts :=
+  {| ef_ptr := false; ef_layout := LFirst; ef_implements := false; ef_nummeth := false; ef_real := true |}.
+Definition f_ptr_last : efacts :=
+  {| ef_ptr := true; ef_layout := LLast; ef_implements := false; ef_nummeth := false; ef_real := true |}.
+
+Lemma embed_side_inhabited :
+  embed_side f_val_only_iface [s "Len"; s "Less"; s "Swap"] [s "Len"; s "Less"; s "Swap"] = true
+  /\ embed_side f_ptr_last [s "Less"] [s "Len"; s "Less"; s "Swap"] = true
+  /\ y_dispatch f_ptr_last [s "Less"] true [s "Len"; s "Less"; s "Swap"] = ([WHost; WBoth; WHost], false).
+Proof. repeat split; reflexivity. Qed.
+
+(** &T{io.Writer} with T overriding Write, handed to a host function taking io.Writer *)
+Lemma embedded_unwrapped_pointer_refuted :
+  y_dispatch f_ptr_only_compiled [s "Write"] false [s "Write"] = ([WHost], false)
+  /\ g_dispatch [s "Write"] false [s "Write"] = ([WScript], false).
+Proof. split; reflexivity. Qed.
+
+(** T{sort.Interface} overriding only Len, by value *)
+Lemma embedded_promoted_stub_refuted :
+  y_dispatch f_val_only_iface [s "Len"] false [s "Len"; s "Less"; s "Swap"] = ([WScript; WNone; WNone], true)
+  /\ g_dispatch [s "Len"] false [s "Len"; s "Less"; s "Swap"] = ([WScript; WHost; WHost], false).
+Proof. split; reflexivity. Qed.
+
+(** T{io.Reader; K string} not overriding Read, by value *)
+Lemma embedded_first_by_value_refuted :
+  y_dispatch f_val_first [] false [s "Read"] = ([WNone], true)
+  /\ g_dispatch [] false [s "Read"] = ([WHost], false).
+Proof. split; reflexivity. Qed.
+
+(* ------------------------------------------------------------------ *)
+(** * Session histories *)
+
+(** No native call between a cancellation and the next evaluation that reaches Execute. *)
+Fixpoint guarded (live : bool) (h : list step) : bool :=
+  match h with
+  | [] => true
+  | SEval :: h' => guarded true h'
+  | SEvalFail :: h' => guarded live h'
+  | SCancel :: h' => guarded false h'
+  | SCallNative :: h' => live && guarded live h'
+  end.
+
+Lemma session_agree : forall h live, guarded live h = true -> y_session live h = g_session h.
+Proof.
+  induction h as [|st h IH]; intros live H; simpl in *; [reflexivity|].
+  destruct st; simpl in *; auto.
+  rewrite andb_true_iff in H. destruct H as [-> H]. f_equal. auto.
+Qed.
+
+Definition h_ok : list step := [SCallNative; SEval; SCancel; SEvalFail; SEval; SCallNative; SCallNative].
+Definition h_dead : list step := [SCallNative; SCancel; SCallNative; SEvalFail; SCallNative; SEval; SCallNative].
+
+Lemma guarded_inhabited : guarded true h_ok = true /\ y_session true h_ok = [OOk; OOk; OOk].
+Proof. split; reflexivity. Qed.
+
+Lemma after_cancel_before_eval_refuted :
+  y_session true h_dead = [OOk; OZero; OZero; OOk] /\ g_session h_dead = [OOk; OOk; OOk; OOk].
+Proof. split; reflexivity. Qed.
